@@ -23,7 +23,10 @@ def showO (r : Option Msg) : String :=
   | none => "rej"
 
 def protoOf (s : String) : Option Proto :=
-  if s = "udp" then some .udp else if s = "tcp" then some .tcp else if s = "ws" then some .ws else none
+  -- SPEC DECISION D17: DTLS, TLS and WSS carry exactly the framing of UDP, TCP and WS (RFC 7252 §9, RFC 8323 §3 / §8):
+  -- the secured transport names select the specification of their plain counterparts
+  if s = "udp" ∨ s = "dtls" then some .udp else if s = "tcp" ∨ s = "tls" then some .tcp
+  else if s = "ws" ∨ s = "wss" then some .ws else none
 
 /-- `parse <proto> <hex>` → `M <result>` / `S <result>` on one line separated by ` | `. -/
 def parseStep (args : List String) : String :=
